@@ -2,7 +2,7 @@
    independent transcription of the specification prescribes; then whole frames, and decoding of specification bytes. *)
 From Coq Require Import ZArith List Bool Lia.
 From Coq Require Import ZifyBool ZifyNat.
-From GCNP Require Import base.GoInt base.Bytes base.Codec gen.Constants_gen spec.SpecTables model.Prim model.DataType
+From GCNP Require Import spec.SpecClean base.GoInt base.Bytes base.Codec gen.Constants_gen spec.SpecTables model.Prim model.DataType
   model.MsgTypes model.Frame model.MsgRequests model.MsgErrors model.MsgResults model.MsgCodec model.MsgValid model.FrameValid
   proofs.PrimProofs proofs.CqlBytesLemmas proofs.FrameProofs proofs.MsgRequestsLib proofs.MsgRequestsSimple proofs.MsgRequestsQuery
   proofs.MsgRequestsBatch proofs.MsgErrorsProofs proofs.MsgResultsValid proofs.MsgResultsProofs proofs.MsgCodecProofs proofs.FrameFinal
@@ -15,19 +15,7 @@ Ltac Zify.zify_post_hook ::= Z.div_mod_to_equations.
 (* What the specification side needs beyond message_okb.  Each conjunct is a place where the Go encoder accepts an input that
    the specification of the version gives no layout to (see notes/spec.md, "Phase 2"): none of them is a byte-level
    disagreement; where both sides define bytes they are proved equal below. *)
-Definition msg_clean (v : Z) (m : Message) : bool :=
-  match m with
-  | M_Query x => oqo_clean (q_Options x)
-  | M_Execute x => execute_clean v x
-  | M_Batch x => forallb batch_child_clean (b_Children x)
-  | M_WriteTimeout x => bytes_okb (wt_WriteType x)
-  | M_ReadFailure _ | M_WriteFailure _ | M_FunctionFailure _ => spec_from_v4 v
-  | M_Unprepared x => MsgRequests.is_some (up_Id x)
-  | M_SchemaChangeResult x => scr_clean x
-  | M_PreparedResult x => prepared_clean v x
-  | M_RowsResult x => match rr_Metadata x with Some md => rows_md_clean v md | None => false end
-  | _ => true
-  end.
+(* msg_clean: see spec/SpecClean.v *)
 
 Lemma ok_inj (a b : bytes) : @Ok bytes a = Ok b -> a = b.
 Proof. intro H. congruence. Qed.
@@ -139,12 +127,9 @@ Lemma opcode_spec m : msg_opcode m = spec_msg_opcode m. Proof. destruct m; refle
 Lemma is_response_spec m : msg_is_response m = spec_msg_is_response m. Proof. destruct m; reflexivity. Qed.
 Lemma has_spec flags mask : has flags mask = has_flag flags mask. Proof. reflexivity. Qed.
 
-Definition frame_clean (f : Frame) : bool := msg_clean (h_Version (f_Header f)) (bd_Message (f_Body f)).
+(* frame_clean: see spec/SpecClean.v *)
 
-(* the specification's frame for the fields of a model frame *)
-Definition spec_frame_of (f : Frame) : option bytes :=
-  let h := f_Header f in let b := f_Body f in
-  spec_frame (h_Version h) (h_Flags h) (h_StreamId h) (bd_TracingId b) (bd_CustomPayload b) (olist (bd_Warnings b)) (bd_Message b).
+(* spec_frame_of: see spec/SpecClean.v *)
 
 Lemma frame_body_spec f mb : frame_valid f -> frame_clean f = true ->
   enc_message (h_Version (f_Header f)) (bd_Message (f_Body f)) = Ok mb ->
